@@ -94,6 +94,13 @@ def build_calls(ctx: Ctx, n_docs: int):
     for t in inst:
         calls.append({"direct": "validator", "text": t, "schema": "GEN_DET", "strict": True})
         calls.append({"tool": "write", "args": {"target_path": f"w/i{len(calls)}.oct.md", "content": t, "schema": "GEN_DET", "lenient": True}})
+    # preview, then a different edit, on files holding the same text (a memo keyed on file text would leak the preview's edit)
+    base = "===E===\nMETA:\n  TYPE::T\nOWNER::alice\nNOTE::n\n===END===\n"
+    for j in range(2):
+        calls.append({"tool": "write", "args": {"target_path": f"w/edit{j}.oct.md", "content": base}})
+        calls.append({"tool": "write", "args": {"target_path": f"w/edit{j}.oct.md", "changes": {"OWNER": {"$op": "DELETE"}, f"P{j}": 1}, "corrections_only": True}})
+        calls.append({"tool": "write", "args": {"target_path": f"w/edit{j}.oct.md", "changes": {"NOTE": f"edited{j}"}}})
+        calls.append({"direct": "emit", "text": base})
     for j in range(3):
         for c in COLLIDE + [GEN_DET]:
             calls.append({"tool": "compile", "args": {"content": c, "format": "gbnf"}})
